@@ -603,6 +603,11 @@ class StateMachine:
                 self.done()
 
                 if self.__should_engage:
+                    # start over at the instant the final state expired
+                    self.__start += new_state_start
+                    self.__engaged = True
+                    tm = now - self.__start
+                    new_state_start = 0
                     self.next_state(self.__first)
                     state = self.__state
                 else:
